@@ -236,10 +236,32 @@ func IsListed(sig string) bool {
 func Fail(t Fataler, sig string, format string, args ...any) bool {
 	t.Helper()
 	if Known(sig) {
+		traceKnown(sig, format, args...)
 		return true
 	}
 	t.Fatalf("VIOLATION sig=%s: %s", sig, fmt.Sprintf(format, args...))
 	return false
+}
+
+// traceKnown keeps the first three occurrences of every listed signature in $VERIF_OUT/known_hits.txt (triage aid:
+// what exactly still reaches a listed finding).
+func traceKnown(sig, format string, args ...any) {
+	dir := os.Getenv("VERIF_OUT")
+	if dir == "" {
+		return
+	}
+	mu.Lock()
+	n := knownHits[sig]
+	mu.Unlock()
+	if n > 3 {
+		return
+	}
+	f, err := os.OpenFile(dir+"/known_hits.txt", os.O_APPEND|os.O_CREATE|os.O_WRONLY, 0o644)
+	if err != nil {
+		return
+	}
+	defer f.Close()
+	fmt.Fprintf(f, "=== %s (occurrence %d)\n%s\n", sig, n, fmt.Sprintf(format, args...))
 }
 
 // Flush writes the stats file and the fingerprint side file.
